@@ -11,10 +11,12 @@ P = "OdxVerif.Dispatch."
 THEOREMS = [P + t for t in [
     "C06_attribution_partial", "C06_attribution_general", "C06_attribution_sound", "C06_attribution_counterexample",
     "C06_prefix_tree_complete_partial", "C06_prefix_tree_complete_counterexample", "C06_own_encoding",
-    "C06_response_via_request", "C06_response_only_via_request", "C06_service_groups", "C06_lenient_eq_strict",
+    "C06_response_via_request", "C06_response_only_via_request", "C06_service_groups",
+    "C06_service_groups_leading_constant", "C06_lenient_eq_strict",
     "C06_lenient_general", "C06_lenient_attribution"]]
 RULE = ("service sets of 1-5 services loaded from generated ODX XML (shared, nested, empty and distinct constant prefixes; "
-        "PHYS-CONST and multi-byte constants; requests of differing lengths; MATCHING-REQUEST-PARAM inside / across / beyond the "
+        "PHYS-CONST and multi-byte constants of 8/16/24/32 bit in either byte order (IS-HIGHLOW-BYTE-ORDER absent / true / false), "
+        "unsigned or two's complement; NRC-CONST alternatives of 8 bit and of 16 bit low-high; requests of differing lengths; MATCHING-REQUEST-PARAM inside / across / beyond the "
         "request prefix; NRC-CONST alternatives; shared and doubly referenced responses; 0-2 global negative responses) x messages "
         "(own encodings through the real encoder and written down from the description, every byte string of length <= 3 over the "
         "prefix alphabet + {00, ff} (quick: length 3 sampled when the alphabet is large), single-byte mutations, truncations, "
@@ -28,6 +30,16 @@ RULE = ("service sets of 1-5 services loaded from generated ODX XML (shared, nes
         "NOT-INHERITED-DIAG-COMMS / NOT-INHERITED-GLOBAL-NEG-RESPONSES lists incl. names of the other kind and unknown names; the ECU "
         "variant is decoded on, messages additionally: the excluded / overridden global negative responses as answers to the requests "
         "of every service, requests and responses of excluded / overridden services); "
+        "x enumerated family enum-leading-constant (quick 384 / thorough 960 requests in layers of five services: EVERY coding of the "
+        "constant a request starts with — 8/16/24/32 bit x CODED-CONST/PHYS-CONST x byte order absent/true/false x A_UINT32/A_INT32 x "
+        "byte patterns (distinct ascending, top bit in the first / last wire byte, all equal), 16 bit also with BYTE-/BIT-POSITION "
+        "spelled out as 0 — x follower none / 16 bit constant in the other byte order (thorough: / 8 bit / 16 bit PHYS-CONST / 24 bit "
+        "low-high); messages: own requests and responses (description and real encoder), the request with the bytes of its constant "
+        "prefix reversed / rotated / first byte exchanged / nibbles swapped, truncations, responses against the reversed request) "
+        "x enumerated family enum-positioned-constant (70 services in 14 layers, OUTSIDE the model's envelope, decided from the "
+        "description without the Lean driver: first byte as two nibbles / 3+4+1 bits in every listing order and CODED-/PHYS-CONST "
+        "mix, constant nibble next to a VALUE nibble, whole-byte constants of either byte order at explicit BYTE-POSITIONs listed in "
+        "and against wire order, constants behind a gap filled by a later VALUE); "
         "distinct = distinct (layer description, message, request, mode); "
         "non-trivial = the tree walk of the model returns at least one candidate service")
 TRUSTED = ["model lean/OdxVerif/Model/Dispatch.lean is hand-written; tied to diaglayer.py/diagservice.py/codec.py/servicebinner.py by "
@@ -44,10 +56,24 @@ TRUSTED = ["model lean/OdxVerif/Model/Dispatch.lean is hand-written; tied to dia
            "follow); the model, the Spec and every oracle are fed with THAT list (objects looked up among the locally defined objects of "
            "the layers), not with layer.services / layer.global_negative_responses; the two are also compared directly (clause "
            "layer-contents); inheritance itself (all object kinds, several parents, priorities) is C09's subject",
+           "which bytes a constant parameter puts on the wire, the constant prefix of every coding object and the first byte of every "
+           "request are ALSO written down from the JSON description alone (dispatch_lib.const_bytes / layout / desc_prefix, hand-written: "
+           "value modulo 2^n in the byte order of the coding, parameters at their BYTE-/BIT-POSITION or behind the preceding one, leading "
+           "run of constants, leading completely determined bytes) and compared with param.encode_into_pdu (the model's input; clause "
+           "constant-prefix/constant-bytes), with coded_const_prefix (constant-prefix/differs-from-description) and with the service "
+           "groups (service-groups/misfiled), so that no oracle of the service-group and own-encoding clauses rests on the implementation's "
+           "own notion of the constant bytes; dispatch_lib.desc_reply evaluates the Spec relations (attributed, unambiguous, found) on the "
+           "description; it is compared with the Lean Spec on every case of enum-leading-constant (family spec-vs-description) and "
+           "replaces the driver for layers outside the model's envelope (enum-positioned-constant)",
            "history-independence is a model-free metamorphic oracle on the real code: the result list (order and duplicates included) of a "
            "call after other calls on the same layer object must equal the result of the same call as the first call on a freshly loaded "
            "layer; a main-loop violation is reported with the single-call witness only after it was reproduced as a first call"]
-ASSUMPTIONS = ["envelope: byte-aligned constant parameters without explicit BYTE-POSITION (a constant contributes the bytes it encodes to on its own)",
+ASSUMPTIONS = ["envelope of the Lean model: byte-aligned constant parameters without explicit BYTE-POSITION (a constant contributes the bytes "
+               "it encodes to on its own, in whatever byte order / base type); layers with positioned or sub-byte constants (family "
+               "enum-positioned-constant) are not sent to the model: service groups, constant prefixes, attribution, own encodings and "
+               "response-via-request are decided for them by the description-level oracles on the real code only",
+               "service group of a request whose first byte is not completely determined by its leading constants (e.g. a constant nibble "
+               "next to a VALUE nibble): None",
                "Unambiguous: the main theorem assumes no service has two own coding objects matching the message (strict mode reports "
                "'cannot uniquely decode'); ambiguous cases are covered by C06_attribution_general and by the correspondence runs only",
                "NoEmptyPrefix: open finding c06-empty-prefix (a coding object with an empty constant prefix does not make its service a "
@@ -110,12 +136,14 @@ class Reporter:
 # ---------------------------------------------------------------- one layer
 def messages_for(desc, view, rng, big):
     """[(msg, tag)] and [(response, request, expected (service no, coding no) | None)]"""
-    msgs, pairs = {}, []
+    msgs, pairs, own_of = {}, [], {}
 
-    def add(m, tag):
+    def add(m, tag, who=None):
         m = bytes(m)
         if len(m) <= 12 and m not in msgs:
             msgs[m] = tag
+        if len(m) <= 12 and who is not None and who not in own_of.setdefault(m, []):
+            own_of[m].append(who)       # m is an encoding of coding object `who[1]` of service `who[0]`
 
     svc_by_name = {s.short_name: s for s in view.services}
     own = []
@@ -129,7 +157,7 @@ def messages_for(desc, view, rng, big):
         except Exception:
             pass
         for rq in reqs:
-            add(rq, "own-request")
+            add(rq, "own-request", (sn, view.cno[id(s.request)]))
             own.append(rq)
         rq = reqs[-1]
         robjs = list(s.positive_responses) + list(s.negative_responses)
@@ -146,7 +174,7 @@ def messages_for(desc, view, rng, big):
                 except Exception:
                     pass
             for e in encs:
-                add(e, "own-response")
+                add(e, "own-response", (sn, view.cno[id(ro)]))
                 own.append(e)
                 pairs.append((e, rq, (sn, view.cno[id(ro)])))
         for gd in desc["gnrs"]:
@@ -203,7 +231,7 @@ def messages_for(desc, view, rng, big):
             k = rng.randrange(len(rq))
             extra.append((e, rq[:k] + bytes([(rq[k] + 1) & 0xFF]) + rq[k + 1:], None))
             extra.append((e, rq[:k], None))
-    return list(msgs.items()), pairs + extra
+    return [(m, tag, own_of.get(m)) for m, tag in msgs.items()], pairs + extra
 
 
 # ---------------------------------------------------------------- history: decoding is a function of (layer, message)
@@ -357,10 +385,15 @@ def history_phase(ctx, rep, desc, probes):
     return {(c["msg"], c["req"], c["strict"]): r for c, r in zip(probes, refs)}
 
 
-def eval_layer(ctx, rep, desc, rng, big, pending, corpus=None, hrng=None):
-    """run the implementation on one layer; queue driver lines; returns nothing (see flush)"""
+def eval_layer(ctx, rep, desc, rng, big, pending, corpus=None, hrng=None, nprobes=16, crosscheck=False, lenient=1.0):
+    """run the implementation on one layer; queue driver lines; returns nothing (see flush).
+    A layer with positioned / sub-byte parameters is outside the envelope of the Lean model: no driver line is queued for it,
+    the Spec answers (attributed services, unambiguity, services found through the walk) are computed from the description
+    (`D.desc_reply`).  crosscheck: compute them for a model-fed layer as well and compare them with the Lean Spec."""
     try:
         view = D.make_view(desc)
+        view.modelfree = D.positioned(desc)
+        view.crosscheck = crosscheck and not view.modelfree
     except Exception as e:
         ctx.count("layer_load_failed:" + type(e).__name__)
         if "base" in desc:      # the flat layers load (0 failures measured); a hierarchy which does not is a finding
@@ -383,31 +416,47 @@ def eval_layer(ctx, rep, desc, rng, big, pending, corpus=None, hrng=None):
                         {"layer": desc, "msg": "", "req": None, "strict": True, "info": True, "kind": kind, "names": names},
                         f"the layer {'lists' if how == 'extra' else 'does not list'} the {kind}(s) {names} although the description "
                         f"(parents, exclusion lists of the PARENT-REFs, overriding) says they {'do not apply' if how == 'extra' else 'apply'} to it")
+    view.dkey = json.dumps(desc, sort_keys=True)
     view.hist = [{"info": True}]          # everything that is done with this layer object, in order
     ctx.count("layers")
     ctx.histo("services_per_layer", len(view.services))
     ctx.histo("gnrs_per_layer", len(view.gnrs))
+    if view.modelfree:
+        ctx.count("layers_outside_model_envelope")
     # static part: prefixes and service groups
-    pending.append(("info", desc, view, None, f"(info {view.layer_sexp({})})", (D.run_prefixes(view), D.run_groups(view))))
-    if corpus is not None:
+    static = (D.run_prefixes(view), D.run_groups(view))
+    check_static(ctx, rep, desc, view, static)
+    pending.append(("info", desc, view, None, None if view.modelfree else f"(info {view.layer_sexp({})})", static))
+    if callable(corpus):
+        try:
+            cases = corpus(view)          # an enumerated family: its messages depend on the loaded layer (real encoder)
+        except Exception as e:
+            ctx.count("enum_cases_failed:" + type(e).__name__)
+            cases = []
+        for c in cases:
+            ctx.histo("enum_case_kind", c[3])
+    elif corpus is not None:
         cases = corpus
     else:
         msgs, pairs = messages_for(view.eff, view, rng, big)
-        cases = [("decode", m, None, tag, None) for m, tag in msgs] + [("response", e, rq, "pair", exp) for e, rq, exp in pairs]
+        cases = [("decode", m, None, tag, who) for m, tag, who in msgs] + [("response", e, rq, "pair", exp) for e, rq, exp in pairs]
     # history scenarios on fresh layer objects (before the main loop, which has a long history of its own)
-    if corpus is not None:
-        probes = [mk_call(m, rq, st) for (_, m, rq, _, _) in cases for st in (True, False)][:16]
+    if callable(corpus):     # the own requests of the services of the layer (they share / nest their prefixes by construction)
+        probes = [mk_call(m, rq, True) for (_, m, rq, tag, _) in cases if tag == "own-request"][::2][:nprobes]
+    elif corpus is not None:
+        probes = [mk_call(m, rq, st) for (_, m, rq, _, _) in cases for st in (True, False)][:nprobes]
     else:
         probes = pick_probes(cases, hrng or rng, 8 if big else 4)
     refs = history_phase(ctx, rep, desc, probes) if probes else {}
     for (op, msg, req, tag, exp) in cases:
-        modes = [True] if (corpus is None and rng.random() < 0.7) else [True, False]
+        modes = [True] if ((corpus is None and rng.random() < 0.7) or (corpus is not None and lenient < 1.0 and rng.random() >= lenient)) else [True, False]
         for strict in modes:
             outs, res, cands = main_step(view, msg, req, strict)
             hi = len(view.hist)
             view.hist.append(mk_call(msg, req, strict, main=True))
-            line = (f"(decode (strict {'t' if strict else 'f'}) (msg {common.hexa(msg)}) "
-                    f"(walk {common.hexa(msg if req is None else req)}) {view.layer_sexp(outs)})")
+            line = None if view.modelfree else (
+                f"(decode (strict {'t' if strict else 'f'}) (msg {common.hexa(msg)}) "
+                f"(walk {common.hexa(msg if req is None else req)}) {view.layer_sexp(outs)})")
             pending.append((op, desc, view, (msg, req, strict, tag, exp, outs, hi), line, (res, cands)))
             ctx.histo("message_kind", tag)
             ctx.histo("mode", ("strict" if strict else "lenient") + "/" + op)
@@ -429,12 +478,13 @@ def flush(ctx, rep, pending):
     if not pending:
         return
     try:
-        replies = drv.query([p[4] for p in pending])
+        replies = iter(drv.query([p[4] for p in pending if p[4] is not None]))
     except Exception as e:
         ctx.disagree("driver", "batch", repr(e), "")
         pending.clear()
         return
-    for (op, desc, view, info, line, impl), reply in zip(pending, replies):
+    for (op, desc, view, info, line, impl) in pending:
+        reply = next(replies) if line is not None else None      # None: layer outside the model's envelope
         if op == "info":
             check_info(ctx, rep, desc, view, line, impl, reply)
         else:
@@ -442,10 +492,87 @@ def flush(ctx, rep, pending):
     pending.clear()
 
 
+def first_param(s):
+    return type(s.request.parameters[0]).__name__ if s.request is not None and len(s.request.parameters) else "none"
+
+
+def check_static(ctx, rep, desc, view, impl):
+    """direct oracles which need neither the model nor the Lean Spec: what the layer says about its constants against the
+    JSON description (`D.const_bytes`, `D.desc_prefix`: byte order, base type, listing order and positions of the leading
+    constants are taken from the description, not from the implementation)"""
+    (iprefix, (igroups, igetitem)) = impl
+    w = {"layer": desc, "msg": "", "req": None, "strict": True, "info": True}
+    # (a) the bytes ONE constant parameter encodes to on its own (the model's input) are the bytes of its value in its coding
+    for n, cb in view.cbytes.items():
+        cd = view.cdesc.get(n)
+        if cd is None or len(cd["params"]) != len(cb):
+            continue
+        for p, b in zip(cd["params"], cb):
+            if p["k"] in ("cc", "pc") and p["bl"] % 8 == 0 and not p.get("bit") and not p.get("bp"):
+                ctx.count("constant_bytes_checked")
+                want = D.const_bytes(p)
+                if b != want:
+                    kind = {"cc": "coded-const", "pc": "phys-const"}[p["k"]]
+                    rep.violate("constant-prefix", ["constant-bytes", kind], b if isinstance(b, str) else "differs-from-description",
+                                {**w, "coding": cd["name"], "param": p, "expected": want.hex(), "got": b if isinstance(b, str) else b.hex()},
+                                f"the {kind} parameter {p} of {cd['name']} encodes to {b if isinstance(b, str) else b.hex()}, "
+                                f"its value in its coding is {want.hex()}")
+                    return
+    # (b) coded_const_prefix of every coding object (relative to every service) is the constant prefix of the description
+    rps = {}
+    for s in view.services:
+        sn = view.sno[id(s)]
+        rq = view.cdesc.get(view.cno.get(id(s.request))) if s.request is not None else None
+        if s.request is not None and rq is None:
+            continue
+        rps[sn] = D.desc_prefix(rq["params"]) if rq is not None else b""
+        row = iprefix.get(sn)
+        if isinstance(row, str):
+            continue           # reported by check_info (exception)
+        for cn, got in row or []:
+            cd = view.cdesc.get(cn)
+            if cd is None or (isinstance(got, str) and got.startswith("foreign")):
+                continue
+            ctx.count("constant_prefix_checked")
+            want = D.desc_prefix(cd["params"], rps[sn]).hex() or "-"
+            if got != want:
+                ctx.histo("constant_prefix_violation", view.kind(cn))
+                rep.violate("constant-prefix", ["differs-from-description", "request" if view.is_request(cn) else "response"], "differs-from-description",
+                            {**w, "coding": cd["name"], "service": view.sname[sn], "expected": want, "got": got},
+                            f"coded_const_prefix of {cd['name']} (for service {view.sname[sn]}) is {got}, the leading constants of "
+                            f"its description give {want}")
+                return
+    # (c) every service is filed under the first byte of its request's constant prefix (None if there is none), only there
+    if isinstance(igroups, str):
+        return                 # reported by check_info / below
+    for s in view.services:
+        sn = view.sno[id(s)]
+        if sn not in rps:
+            continue
+        sid = rps[sn][0] if rps[sn] else None
+        ctx.count("service_group_checked_by_description")
+        where = sorted((k is None, k) for k, v in igetitem.items() if sn in v)
+        if where != [(sid is None, sid)]:
+            first = first_param(s)
+            ctx.histo("group_violation_first_param", first)
+            rep.violate("service-groups", ["misfiled", first], str([k for _, k in where]),
+                        {**w, "service": view.sname[sn], "expected": sid, "request_prefix": rps[sn].hex()},
+                        f"service {view.sname[sn]} whose requests start with the constant byte(s) {rps[sn].hex() or '-'} is filed under "
+                        f"{[k for _, k in where]} instead of {sid}")
+            return
+
+
 def check_info(ctx, rep, desc, view, line, impl, reply):
-    r = D.parse_info_reply(reply)
     ctx.traces += 1
-    ctx.case(("info", json.dumps(desc, sort_keys=True)), nontrivial=True)
+    if reply is None:          # layer outside the model's envelope: check_static has said everything
+        ctx.case(("info", view.dkey), nontrivial=True)
+        (_, (igroups, _)) = impl
+        if isinstance(igroups, str):
+            rep.violate("service-groups", ["exception"], igroups, {"layer": desc, "msg": "", "req": None, "strict": True, "info": True},
+                        "ServiceBinner raises")
+        return
+    r = D.parse_info_reply(reply)
+    ctx.case(("info", view.dkey), nontrivial=True)
     (iprefix, (igroups, igetitem)) = impl
     if r is None:
         ctx.disagree("info", line, reply, "")
@@ -472,8 +599,7 @@ def check_info(ctx, rep, desc, view, line, impl, reply):
     for sn, sid in r["sids"].items():
         where = sorted((k is None, k) for k, v in igetitem.items() if sn in v)
         if where != [(sid is None, sid)]:
-            s = view.services[sn - 1]
-            first = type(s.request.parameters[0]).__name__ if s.request is not None and len(s.request.parameters) else "none"
+            first = first_param(view.services[sn - 1])
             ctx.histo("group_violation_first_param", first)
             rep.violate("service-groups", ["misfiled", first], str([k for _, k in where]),
                         {"layer": desc, "msg": "", "req": None, "strict": True, "info": True, "service": view.sname[sn], "expected": sid},
@@ -518,21 +644,42 @@ def norm_res(res):
 def check_decode(ctx, rep, op, desc, view, info, line, impl, reply):
     (msg, req, strict, tag, exp, outs, hi) = info
     (res, cands) = impl
-    r = D.parse_decode_reply(reply)
     ctx.traces += 1
-    if r is None:
-        ctx.disagree(op, line, reply, "")
-        return
-    ctx.case((op, json.dumps(desc, sort_keys=True), msg, req, strict), nontrivial=bool(r["cands"]))
-    ctx.sample({"line": line[:400], "model": reply[:300], "impl": str(res)[:200]})
     w = witness(desc, msg, req, strict)
-    # ---- correspondence
-    if cands != r["cands"]:
-        ctx.disagree("candidates", w, r["cands"], cands)
-    if norm_res(res) != r["res"]:
-        ctx.disagree(op, w, r["res"], res)
-    ctx.histo("model_outcome", r["res"][0] if r["res"][0] == "ok" else "err:" + r["res"][1])
-    ctx.histo("envelope", "unambiguous" if r["unamb"] else "ambiguous")
+    walk = msg if req is None else req
+    if reply is None:
+        # layer outside the model's envelope: the Spec answers come from the description
+        r = D.desc_reply(view, msg, walk, strict)
+        if r is None:
+            ctx.count("description_incomplete")
+            return
+        ctx.case((op, view.dkey, msg, req, strict), nontrivial=bool(r["cands"]))
+        ctx.count("cases_decided_by_description")
+        ctx.histo("envelope", "unambiguous" if r["unamb"] else "ambiguous")
+    else:
+        r = D.parse_decode_reply(reply)
+        if r is None:
+            ctx.disagree(op, line, reply, "")
+            return
+        ctx.case((op, view.dkey, msg, req, strict), nontrivial=bool(r["cands"]))
+        ctx.sample({"line": line[:400], "model": reply[:300], "impl": str(res)[:200]})
+        # ---- correspondence
+        if cands != r["cands"]:
+            ctx.disagree("candidates", w, r["cands"], cands)
+        if norm_res(res) != r["res"]:
+            ctx.disagree(op, w, r["res"], res)
+        ctx.histo("model_outcome", r["res"][0] if r["res"][0] == "ok" else "err:" + r["res"][1])
+        ctx.histo("envelope", "unambiguous" if r["unamb"] else "ambiguous")
+        if view.crosscheck:
+            # the Lean Spec (fed with the implementation's per-coding-object outcomes and constant bytes) against the same
+            # relation evaluated on the JSON description
+            dr = D.desc_reply(view, msg, walk, strict)
+            if dr is not None:
+                ctx.count("spec_vs_description_compared")
+                a = {k: sorted(v) for k, v in r["attr"].items()}
+                b = {k: sorted(v) for k, v in dr["attr"].items()}
+                if a != b or r["unamb"] != dr["unamb"] or sorted(set(r["cands"])) != dr["cands"]:
+                    ctx.disagree("spec-vs-description", w, (a, r["unamb"], sorted(set(r["cands"]))), (b, dr["unamb"], dr["cands"]))
     # ---- direct oracle on the per-coding-object decoding the model takes as given: "parameters match M" read off the
     #      description alone (message long enough, NRC-CONST value one of the alternatives, PHYS-CONST value in strict
     #      mode) against request.decode / response.decode in this mode, for every coding object of the layer
@@ -606,6 +753,35 @@ def check_decode(ctx, rep, op, desc, view, info, line, impl, reply):
                         break
             if tag.startswith("own") and attr:
                 ctx.count("own_encoding_attributed")
+        # the encodings of a service's own request / responses (through the real encoder and written down from the description)
+        # are attributed to that service — decided from the description alone (constant prefix, parameter verdict), no Spec
+        for sn, cn in (exp or []):
+            cd = dcod.get(cn)
+            s = view.services[sn - 1] if 0 < sn <= len(view.services) else None
+            rqd = dcod.get(view.cno.get(id(s.request))) if s is not None and s.request is not None else None
+            if cd is None or rqd is None:
+                continue
+            pre = view.dprefix(s, cn)
+            if msg[:len(pre)] != pre or D.desc_verdict(cd, msg, strict) is not None:
+                ctx.count("own_encoding_not_matching_its_description")    # e.g. an echo of request bytes which do not exist
+                continue
+            if not pre:
+                ctx.count("own_encoding_skipped_empty_prefix")            # open finding c06-empty-prefix (reported above)
+                continue
+            if strict and not r["unamb"]:
+                continue
+            ctx.count("own_encoding_checked")
+            what = "request" if view.is_request(cn) else "response"
+            if sn not in reported:
+                rep.violate("own-encoding", [what, "service-missing"], "not-reported" if res[0] == "ok" else "decode-error",
+                            {**w, "service": view.sname[sn], "coding": cd["name"], "reported": names(reported)},
+                            f"{msg.hex()} is an encoding of the {what} {cd['name']} of service {view.sname[sn]} (constant prefix {pre.hex()}), "
+                            f"but decode() {'reports only ' + str(names(reported)) if res[0] == 'ok' else 'raises a DecodeError'}")
+            elif strict and cn not in reported[sn]:
+                rep.violate("own-encoding", [what, "other-coding-object"], "reported",
+                            {**w, "service": view.sname[sn], "coding": cd["name"]},
+                            f"{msg.hex()} is an encoding of the {what} {cd['name']} of service {view.sname[sn]}, but decode() reports "
+                            f"another coding object of that service")
     elif op == "response":
         # soundness: only services found through the request (Spec `Found` = the model's walk, C06_prefix_tree_complete_partial) ...
         found = set(r["cands"])
@@ -719,6 +895,18 @@ def run(ctx):
     pending = []
     for desc, items in CORPUS:
         eval_layer(ctx, rep, desc, ctx.rng, big, pending, corpus=corpus_cases(items))
+    flush(ctx, rep, pending)
+    # enumerated small-scope families: every coding of the leading constant(s) of a request (byte order, length, base type,
+    # CODED-/PHYS-CONST; inside the model's envelope: full pipeline + Lean Spec against the description), and leading bytes
+    # assembled from constants with BIT-/BYTE-POSITION in every listing order (outside the envelope: description-level oracles)
+    for fam, gen in (("enum-leading-constant", D.enum_leading_constant), ("enum-positioned-constant", D.enum_positioned_constant)):
+        for i, (desc, meta) in enumerate(gen(big, ctx.sub_rng(fam, "shuffle"))):
+            rng = ctx.sub_rng(fam, i)
+            ctx.count("layers:" + fam)
+            eval_layer(ctx, rep, desc, rng, big, pending, corpus=lambda view, d=desc, r=rng: D.enum_cases(d, view, r),
+                       nprobes=4, crosscheck=True, lenient=1.0 if big else 0.3)
+            if len(pending) > 4000:
+                flush(ctx, rep, pending)
     flush(ctx, rep, pending)
     n_layers = 2500 if big else 320
     for i in range(n_layers):
